@@ -456,12 +456,16 @@ def members_oracle(env, items, info, m):
         name = pascal(st.name)
         n = len(O.find_structs(items, name, env.allowed))
         out.append(O.Check('struct-exactly-once', 'exactly one struct for simple type %s (found %d)' % (st.name, n), n == 1))
+    try:
+        out += references_resolve(items)
+    except RO.Structure:
+        pass
     return out
 
 
 def c02(tier):
     def body(s):
-        fams = F.s_seq(tier) + F.s_nest(tier) + [F.s_ref_anon_fwd(tier), F.s_xns(tier)]
+        fams = F.s_seq(tier) + F.s_nest(tier) + [F.s_ref_anon_fwd(tier), F.s_xns(tier), F.s_typenames(tier)]
         s.functions.update(n for n in s.ctx.bodies if re.search(r'try_from_node|import_|read_(xsd|sequence|complex)|as_rust_type|write_(complex|type_alias)|field', n) and '::tests::' not in n)
         for sc, info in fams:
             scenario_check(s, sc, info, members_oracle, classify=occ_class)
@@ -506,7 +510,8 @@ def c11(tier):
     def body(s):
         ctx = s.ctx
         s.functions.update(n for n in ctx.bodies if re.search(r'read_xml|read_xsd|process_import|::extend|extend_no_duplicates|::read$', n) and '::tests::' not in n)
-        fams = [F.import_graph(3, 2), F.import_graph(2, 2, with_missing=True)]
+        fams = [F.import_graph(3, 2), F.import_graph(2, 2, with_missing=True), F.import_nolocation(),
+                F.import_graph(slots=1, names=['a.xsd', 'b.xsd', 'B.xsd'], tag='imports-case-sensitive-names')]
         if tier == 'thorough':
             fams += [F.import_graph(4, 1), F.import_graph(2, 3), F.import_graph(3, 2, with_missing=True)]
         for sc, info in fams:
@@ -531,7 +536,8 @@ def c11(tier):
                 params = sc.params(model)
                 rc, txt, log_, files = sc.native(ctx, model)
                 s.replays += 1
-                graph = {fn: [params['imp_%d_%d' % (i, k)] for k in range(info.slots)] for i, fn in enumerate(info.names)}
+                graph = {fn: [params.get('imp_%d_%d' % (i, k)) for k in range(info.slots)] for i, fn in enumerate(info.names)}
+                params.setdefault('start', sc.start if isinstance(sc.start, str) else None)
                 rdir = save_replay('C11', re.sub(r'[^\w.-]+', '_', key)[:80], dict(list(files.items()) + [
                     ('finding.txt', '%s\n%s\nstart=%s imports=%s\n' % (key, what, params['start'], graph)),
                     ('native_output.rs', txt or ''), ('native_log.txt', (log_ or '')[-3000:])]))
@@ -658,9 +664,11 @@ def c12(tier):
         fa = Sch('urn:a', [CT('A', Seq([El('x', 'b:B'), El('y', 'c:C')]))], prefixes={'a': 'urn:a', 'b': 'urn:b', 'c': 'urn:c'}, imports=[('urn:b', 'b.xsd'), ('urn:c', 'c.xsd')])
         fb = Sch('urn:b', [CT('B', Seq([El('z', 'c:C')]))], prefixes={'b': 'urn:b', 'c': 'urn:c'}, imports=[('urn:c', 'c.xsd')])
         fc = Sch('urn:c', [CT('C', Seq([El('w', 'xs:int')]))], prefixes={'c': 'urn:c'})
-        files3 = {'a.xsd': to_xml(build(fa.tree())), 'b.xsd': to_xml(build(fb.tree())), 'c.xsd': to_xml(build(fc.tree()))}
+        fC = Sch('urn:cu', [CT('CU', Seq([El('u', 'xs:int')]))], prefixes={'u': 'urn:cu'})
+        # 'C.xsd' is a different file from 'c.xsd' (names differ by case only); nothing imports it
+        files3 = {'a.xsd': to_xml(build(fa.tree())), 'b.xsd': to_xml(build(fb.tree())), 'c.xsd': to_xml(build(fc.tree())), 'C.xsd': to_xml(build(fC.tree()))}
         from xmltree import perms as _perms
-        order = Selector('registration_order', [tuple(['a.xsd', 'b.xsd', 'c.xsd'][i] for i in p) for p in _perms(3)])
+        order = Selector('registration_order', [tuple(['a.xsd', 'b.xsd', 'c.xsd', 'C.xsd'][i] for i in p) for p in _perms(4)])
         repeat = Selector('calls', [1, 2, 3])
         s.scenarios += 1
 
@@ -695,7 +703,7 @@ def c12(tier):
             if any(x != outs[0] for x in outs[1:]) and hist_bad is None:
                 hist_bad = (o, n, outs)
         s.samples.append(dict(check='registration-order x call-history', paths=len(res), distinct_first_outputs=len(by_order),
-                              symbolic='order of Files::new/add over all 6 permutations; 1..3 read_xml+write_xml calls on the same FilesToRead'))
+                              symbolic='order of Files::new/add over all 24 permutations of 4 files (two names differ by case only); 1..3 read_xml+write_xml calls on the same FilesToRead'))
         if len(by_order) > 1:
             d = tempfile.mkdtemp(prefix='zeep-verif-c12.')
             try:
@@ -731,7 +739,7 @@ def c12(tier):
             else:
                 s.rep.inconc('ENCODING-MISMATCH call history: native outputs agree: %s' % out_)
     return run_e2('C12', tier, body, bounds='(i) all iteration orders of every HashMap with <= 3 entries on a generated 2-operation (thorough: 3) WSDL with a two-part message and '
-                  'the all-emitters WSDL; (ii) all 6 registration orders of a 3-file import chain x (iii) call histories of length 1..3 on the same FilesToRead. '
+                  'the all-emitters WSDL; (ii) all 24 registration orders of a 3-file import chain plus an unrelated file whose name differs from another by case only x (iii) call histories of length 1..3 on the same FilesToRead. '
                   'Outside: maps with more entries, directory enumeration order of the CLI (covered by (ii) through Files::add order).',
                   extra_assumptions=['HashMap contract: iteration order is arbitrary but fixed while the map is not modified; each map gets its own order',
                                      'replay of hash-seed findings is statistical: fresh native processes until two outputs differ (<= 48 runs)'])
@@ -1185,7 +1193,7 @@ def wsdl_oracle(env, items, info, m, lines=None):
             out.append(O.Check('response-envelope-defined', 'operation %s: the method returns %s, which must be a struct defined in the output (found %d)' % (tag, r1, len(oenvs)),
                                len(oenvs) == 1 and RO.sym_eq(oenvs[0].name, res_t, env.allowed) if len(oenvs) == 1 else False))
             if len(oenvs) == 1:
-                out += envelope_checks(env, items, info, dict(op, body_el=op['out_el'], headers=[]), oenvs[0], tag, 'output', struct_named, field)
+                out += envelope_checks(env, items, info, dict(op, body_el=op['out_el'], headers=op.get('out_headers', [])), oenvs[0], tag, 'output', struct_named, field)
     # the address
     if lines is not None:
         locs = [l for l in lines if isinstance(RO.one(l), str) and re.match(r'\s*location: "', RO.one(l))]
@@ -1254,7 +1262,7 @@ def envelope_checks(env, items, info, op, envst, tag, direction, struct_named, f
 def c05(tier):
     def body(s):
         s.functions.update(n for n in s.ctx.bodies if re.search(r'Soap(Binding|Service|Port|Message|Operation)|read_(soap|body|header|port)|map_to_rust_node|write_soap|write_async', n) and '::tests::' not in n)
-        fams = [F.w_ops(tier, 0), F.w_ops(tier, 1), F.w_ops(tier, 2)] + F.w_hdr_xns(tier)
+        fams = [F.w_ops(tier, 0), F.w_ops(tier, 1), F.w_ops(tier, 2)] + F.w_hdr_xns(tier) + [F.w_out_hdr(tier)]
         for sc, info in fams:
             def oracle(env, items, info, m, _sc=sc):
                 lines = getattr(env, 'lines', None)
@@ -1564,6 +1572,10 @@ def c07(tier):
             scenario_check(s, sc, info, lambda env, items, info_, m: delegation_checks(env, items), classify=lambda c, p, i: '')
         # ordering: the check precedes serialization and any I/O, its error is returned
         helper_check(s, 'C07', keys_filter=lambda k: k in ('helper/check-first', 'helper/io-after-failed-check', 'helper/restriction-error-returned', 'helper/panic', 'helper/diverge'))
+        if tier == 'thorough':
+            import e1props
+            s.parts['kani_on_generated_code'] = e1props.c07_generated_part(s.rep, tier)
+            s.assumptions.append('thorough tier, obligation (a): Kani on the code generated for kani_gen/facets.xsd; alloc::fmt::format stubbed; one symbolic leaf per harness')
     return run_e2('C07', tier, body,
                   bounds='(b) restricted simple type with each of the 7 supported facets absent or one of 3-4 values (negative, i32 extremes), as child elements or as attributes of xs:restriction, '
                          '0..2 enumeration values, three unsupported facets present; base over string/int/long; holder type using it as required / optional / repeated member; every struct and '
